@@ -921,7 +921,11 @@ impl Connection {
 
             if sent.largest_acked.is_some() {
                 self.spaces[space_id].pending_acks.acks_sent();
-                self.timers.stop(Timer::MaxAckDelay);
+                // The timer belongs to the Data space: acknowledgements sent in the Initial or
+                // Handshake space say nothing about 1-RTT packets still waiting for theirs
+                if space_id == SpaceId::Data {
+                    self.timers.stop(Timer::MaxAckDelay);
+                }
             }
 
             // Keep information about the packet around until it gets finalized
